@@ -1371,8 +1371,8 @@ func names(deps []core_domain.CodeDataStruct) []string {
 
 func init() {
 	pbt.SetProperty("C18")
-	pbt.Describe("count: rapid-generated code models (own generator: 1-5 classes whose simple names are their own or drawn from a small pool so that one name recurs in several packages; packages a, b, a.b, ab, bc, x.a ... that are suffixes/prefixes of each other; methods m, m0, m1, m10, run (no overloads), optional constructor; 0-5 calls per method to a declared method, to a pooled method name on a declared class (declared there or only on a namesake), to a declared method's class and name under another package, to external classes named like project ones, with an empty receiver, with a receiver without package, in constructor form; recorded calls repeated 0-3 times to raise multiplicities); oracle: per declared method the number of call sites whose full name equals it, absent when 0, sum == resolving sites; a second BuildCallMap over the same model gives the same map; string_helper.SortWord (the order `coca count` lists) applied three times to the map lists every entry once and in the same order each time; about 1 case in 40 also runs `coca count` twice on the same deps.json (identical stdout, table rows == reference). evaluate: generated Java projects (1-4 classes, one per file, flat or src/main/java layout, packages incl. com.acme.util / org.demo.service.utils; class names with the word Util, Utils, Service in front, in the middle, at the end or absent; a class may occur once more, methods included, in another package; no constructors, no interfaces; 0-5 methods with modifiers in drawn permutations of subsets of {public|private|protected, static, final, synchronized} or {public|protected, abstract} in abstract classes; 1 method in 6 generic (`<T>` between modifiers and return type); an optional annotation before or between the modifiers: @Nullable, @CheckForNull, both, @Nullable(), @javax.annotation.Nullable / @javax.annotation.CheckForNull, or one that is not a nullability annotation (@Deprecated, @SuppressWarnings, @NonNull, @NotNullable, @NullableDecl); parameters that carry @Nullable/@CheckForNull themselves; fields (annotated, static, initialised with null or \"null\") and initialiser blocks between the methods; bodies of 0-3 statements (filler, if-return with or without braces, a return inside a for / while loop, a catch clause or a switch group, if-else-return) and a closing return whose expressions are null, literals, a field, conditional expressions with or without a null branch, and expressions that mention null without being able to return it (value == null, value != null ? value : \"d\", \"null\", a variable named nullable, String.valueOf(value == null), value == null ? 0 : count)), every file validated with the shipped ANTLR parser; analysed with JavaIdentifierApp + JavaFullApp + evaluate.Analyser as `coca analysis`/`coca evaluate` do; oracle from the description: ClassCount, MethodCount, StaticMethodCount (modifier set contains static), UtilsCount (by class name), Nullable.Items as a duplicate-free set; a second Analyser.Analysis on the same two lists gives the same numbers and the same set; 1 case in 10 also runs the two CLI commands and reads the stdout table. concept: 1-4 classes x 0-5 methods named by 1-5 words (domain words, the tool's tech stop words, the tool's English stop words) in camelCase, 1 name in 8 PascalCase, 1 in 8 with one word replaced by an acronym in capitals (XML, URL, ID, BY ...), up to two method names repeated in the same or another class; oracle: sum of reported counts == number of words whose lower-case form is not in ENGLISH_STOP_WORDS u TechStopWords; 1 case in 50 through `coca concept`. Non-trivial: count = a method with >= 2 resolving sites and an unresolved site; evaluate = a static method whose static is not the last modifier or a return of null followed by a non-null return; concept = stop words and non-stop words both present.",
-		"evaluate: a null literal never occurs inside a returned expression other than as the returned value, a branch of a returned conditional expression, or an operand of == / != (e.g. not as a method argument: the repository's own fixture counts `return opt.orElse(null)` as returning null, the statement does not say); classes named with the word Util/Utils are the utility classes, whatever their package; method names are unique within a class (whether two overloads are one entry or two is not settled by the statement)",
+	pbt.Describe("count: rapid-generated code models (own generator: 1-5 classes whose simple names are their own or drawn from a small pool so that one name recurs in several packages; packages a, b, a.b, ab, bc, x.a ... that are suffixes/prefixes of each other; methods m, m0, m1, m10, run (no overloads), optional constructor; 0-5 calls per method to a declared method, to a pooled method name on a declared class (declared there or only on a namesake), to a declared method's class and name under another package, to external classes named like project ones, with an empty receiver, with a receiver without package, in constructor form; recorded calls repeated 0-3 times to raise multiplicities); oracle: per declared method the number of call sites whose full name equals it, absent when 0, sum == resolving sites; a second BuildCallMap over the same model gives the same map; string_helper.SortWord (the order `coca count` lists) applied three times to the map lists every entry once and in the same order each time; about 1 case in 40 also runs `coca count` twice on the same deps.json (identical stdout, table rows == reference). evaluate: generated Java projects (1-4 classes, one per file, flat or src/main/java layout, packages incl. com.acme.util / org.demo.service.utils; class names with the word Util, Utils, Service in front, in the middle, at the end or absent; a class may occur once more, methods included, in another package; no constructors, no interfaces; 0-5 methods with modifiers in drawn permutations of subsets of {public|private|protected, static, final, synchronized} or {public|protected, abstract} in abstract classes; 1 method in 6 generic (`<T>` between modifiers and return type); an optional annotation before or between the modifiers: @Nullable, @CheckForNull, both, @Nullable(), @javax.annotation.Nullable / @javax.annotation.CheckForNull, or one that is not a nullability annotation (@Deprecated, @SuppressWarnings, @NonNull, @NotNullable, @NullableDecl); parameters that carry @Nullable/@CheckForNull themselves; fields (annotated, static, initialised with null or \"null\") and initialiser blocks between the methods; bodies of 0-3 statements (filler, if-return with or without braces, a return inside a for / while loop, a catch clause or a switch group, if-else-return) and a closing return whose expressions are null, literals, a field, conditional expressions with or without a null branch, and expressions that mention null without being able to return it (value == null, value != null ? value : \"d\", \"null\", a variable named nullable, String.valueOf(value == null), value == null ? 0 : count)), every file validated with the shipped ANTLR parser; analysed with JavaIdentifierApp + JavaFullApp + evaluate.Analyser as `coca analysis`/`coca evaluate` do; oracle from the description: ClassCount, MethodCount, StaticMethodCount (modifier set contains static), UtilsCount (by class name), Nullable.Items as a duplicate-free set; a second Analyser.Analysis on the same two lists gives the same numbers and the same set; 1 case in 10 also runs the two CLI commands and reads the stdout table. overloads: one class of 2-6 methods named from a pool of three names (same-named methods get parameter lists of different lengths), analysed twice, with its methods in the drawn order and in a drawn permutation of it; oracle: class / method / static counts as above (every overload is a method); a path none of whose overloads is nullable is absent from Nullable.Items, a path with k >= 1 nullable overloads is listed once or k times, and both orders give the same list as a multiset. concept: 1-4 classes x 0-5 methods named by 1-5 words (domain words, the tool's tech stop words, the tool's English stop words) in camelCase, 1 name in 8 PascalCase, 1 in 8 with one word replaced by an acronym in capitals (XML, URL, ID, BY ...), up to two method names repeated in the same or another class; oracle: sum of reported counts == number of words whose lower-case form is not in ENGLISH_STOP_WORDS u TechStopWords; 1 case in 50 through `coca concept`. Non-trivial: count = a method with >= 2 resolving sites and an unresolved site; evaluate = a static method whose static is not the last modifier or a return of null followed by a non-null return; overloads = two nullable overloads with another nullable method written between them in one of the two orders, and the order changed; concept = stop words and non-stop words both present.",
+		"evaluate: a null literal never occurs inside a returned expression other than as the returned value, a branch of a returned conditional expression, or an operand of == / != (e.g. not as a method argument: the repository's own fixture counts `return opt.orElse(null)` as returning null, the statement does not say); classes named with the word Util/Utils are the utility classes, whatever their package; in the evaluate sub-check method names are unique within a class; overloads are the subject of the overloads sub-check, which asserts only what both readings of 'each listed once' share (whether two nullable overloads are one entry or two is not settled by the statement)",
 		"evaluate: only the 'Type Count' and 'Level Total' columns of the `coca evaluate` table are compared (the percentage column of the Static Method row is computed from the utility-class count: observed, outside the statement); coca_reporter/evaluate.json is not read because it is written empty whenever a standard deviation is NaN",
 		"evaluate: generator feature switches (pbt.Excluded): return_mentions_null, generic_method, qualified_nullable_annotation",
 		"concept: lower-case words are 2-12 letters (single-letter words are merged by the camel-case splitter), acronyms 2-5 capitals and never adjacent to another acronym, no digits or underscores: for those shapes the words of a name are not in doubt",
